@@ -653,6 +653,7 @@ def write_if_changed(path, text):
 
 HEAD_REAL = """import VectorModel.Prim.Real
 import VectorModel.Prim.Keys
+import VectorModel.Gen.Attrs
 {imports}
 set_option linter.unusedVariables false
 set_option maxRecDepth 4096
@@ -765,7 +766,14 @@ def main():
                 body.append("")
         body.append(BODY_END)
         body = "\n".join(body)
-        for kind, head, foot in (("Real", HEAD_REAL, FOOT_REAL), ("Exec", HEAD_EXEC, FOOT_EXEC)):
+        attrs = []
+        for m in comp:
+            names = [n for n in order if tr.fn_mod[n] == m]
+            if m in tr.tables and not any(mm == m for mm, _ in tr.missing):
+                names += [f"{m}.eval", f"{m}.ret"]
+            attrs.append(f"attribute [d_{m}] " + " ".join(names))
+        attrs = "\n".join(attrs) + "\n"
+        for kind, head, foot in (("Real", HEAD_REAL, attrs + FOOT_REAL), ("Exec", HEAD_EXEC, FOOT_EXEC)):
             imports = "\n".join(f"import VectorModel.Gen.{kind}.{d}" for d in deps)
             write_if_changed(os.path.join(GEN, kind, u + ".lean"), head.format(imports=imports) + body + foot)
             live.add(os.path.join(GEN, kind, u + ".lean"))
@@ -785,6 +793,13 @@ def main():
         imports = "import VectorModel.Gen.Tables\n" + "\n".join(f"import VectorModel.Gen.{kind}.{u}" for u, _ in units)
         write_if_changed(os.path.join(GEN, kind, "All.lean"), head.format(imports=imports) + allbody + foot)
         live.add(os.path.join(GEN, kind, "All.lean"))
+    # Attrs.lean: one simp set per compute module (definitions of its functions, eval and ret)
+    A = ["import Lean.Meta.Tactic.Simp.RegisterCommand",
+         "/-! simp sets `d_<module>`: the generated definitions of each compute module (regenerated every run). -/"]
+    for m in mods:
+        A.append(f"/-- generated definitions of compute module {m} -/\nregister_simp_attr d_{m}")
+    write_if_changed(os.path.join(GEN, "Attrs.lean"), "\n".join(A) + "\n")
+    live.add(os.path.join(GEN, "Attrs.lean"))
     # Tables.lean
     T = ["import VectorModel.Prim.Keys", "/-! Dispatch tables of /repo's compute layer as plain data (regenerated every run). -/",
          "set_option maxRecDepth 8192", "namespace VK", "",
